@@ -84,6 +84,9 @@ def ws_collapse(x: str) -> str:
 
 
 # ------------------------------------------------------------------------------------------------ G / X
+_AZ_CI = re.compile("[a-z]", re.I)
+
+
 class GenError(Exception):
     pass
 
@@ -185,7 +188,10 @@ def probes(ctx):
             path_guard = False
     finally:
         pathlib.Path.exists = orig
-    return odf_guard, rtf_repair, path_guard
+    pi = rx._RtfParser(b"")
+    pi._extract_metadata("{\\rtf1{\\info{\\title Pr\\u8364?is}}\\pard x}")
+    info_unicode = pi.metadata.title == "Pr\u20acis"
+    return odf_guard, rtf_repair, path_guard, info_unicode
 
 
 def gen_tables(ctx):
@@ -194,7 +200,8 @@ def gen_tables(ctx):
     from sharepoint2text.parsing.extractors.ms_modern import docx_extractor as dx, pptx_extractor as px
     from sharepoint2text.parsing.extractors.open_office import odt_extractor as ox
     from sharepoint2text.parsing.extractors import epub_extractor as ex
-    odf_guard, rtf_repair, path_guard = probes(ctx)
+    odf_guard, rtf_repair, path_guard, info_unicode = probes(ctx)
+    azci = [c for c in range(0x110000) if _AZ_CI.fullmatch(chr(c))]
     spaces = [c for c in range(0x110000) if chr(c).isspace()]
     decimals = [(c, unicodedata.decimal(chr(c))) for c in range(128, 0x110000) if unicodedata.decimal(chr(c), None) is not None]
     try:
@@ -225,7 +232,9 @@ def gen_tables(ctx):
     txt += f"  repair := {coq_bool(rtf_repair)} |}}.\n\n"
     txt += "Definition rtf_ctypes : list (str * str) := " + coq_list(
         [pair(cstr(k), cstr(v)) for k, v in dt.RtfImage._CONTENT_TYPES.items()]) + ".\n"
-    txt += f"Definition path_guard : bool := {coq_bool(path_guard)}.\n\n"
+    txt += f"Definition path_guard : bool := {coq_bool(path_guard)}.\n"
+    txt += f"Definition info_unicode : bool := {coq_bool(info_unicode)}.\n"
+    txt += "(* code points matched by [a-z] under re.IGNORECASE *)\nDefinition az_ci_table : list N := " + nlist(azci) + ".\n\n"
     txt += "Definition docx_tags : prop_tags := " + tg(dx._DC_TITLE, dx._DC_CREATOR, dx._DC_SUBJECT, dx._CP_KEYWORDS, dx._DC_DESCRIPTION) + ".\n"
     txt += "Definition pptx_tags : prop_tags := " + tg(px._DC_TITLE, px._DC_CREATOR, px._DC_SUBJECT, px._CP_KEYWORDS, px._DC_DESCRIPTION) + ".\n"
     txt += "Definition odf_office_meta : str := " + cstr(q(ons, "office", "meta")) + ".\n"
@@ -237,12 +246,12 @@ def gen_tables(ctx):
     txt += "(* declared field types of the image classes: (class, data/blob, width, has size_bytes) *)\n"
     txt += "Definition img_decls : list (img_class * str * str * bool) := " + coq_list(decls) + ".\n"
     ctx.gen_write("Gen/C04Tables.v", txt)
-    ctx.extra["variants"] = {"odf_guarded": odf_guard, "rtf_repair": rtf_repair, "path_guard": path_guard}
+    ctx.extra["variants"] = {"odf_guarded": odf_guard, "rtf_repair": rtf_repair, "path_guard": path_guard, "info_unicode": info_unicode}
     return dict(odf_guard=odf_guard, rtf_repair=rtf_repair, path_guard=path_guard, units=[u for u, _ in units],
                 spaces=spaces, decimals=decimals)
 
 
-PRE = ("From S2T Require Import Lib.PyStr C04.Model C04.ModelFloat C04.ModelPath C04.ModelRtf C04.ModelMeta C04.Corr "
+PRE = ("From S2T Require Import Lib.PyStr C04.Model C04.ModelFloat C04.ModelPath C04.ModelRtf C04.ModelMeta C04.ModelRtfText C04.Corr "
        "Gen.C04Tables.\nFrom Coq Require Import List NArith ZArith.\nImport ListNotations.\nOpen Scope N_scope.\n")
 
 
@@ -562,6 +571,59 @@ def run_rtf(ctx, tb):
                          utf8_key="rtf-unicode-escape-lone-surrogate")
         except Exception as e:  # noqa
             ctx.finding(f"rtf-doc-raises:{key}", f"read_rtf on hostile RTF {key} raises {e!r:.200}", {"rtf_bytes": data})
+
+
+INFO_TOKENS = ["Title", "Dragon Ball Z", " ", "  ", "J", "\\'fc", "rgen", "\\'e9", "\\'E9", "\\'zz", "\\'5c", "\\'7b", "\\'a0", "\\'85", "\\'",
+               "\\u8364?", "\\u8364", "\\u8364 ", "\\u8364?is", "\\u55357?\\u56832?", "\\u55357?", "\\u56832?", "\\u-10179?\\u-8704?", "\\u-3?",
+               "\\u", "\\u-", "\\u65B", "\\u\u0663?", "\\u92?b", "\\~", "\\par ", "\\b0 x", "\\b", "\\fs24  y", "\\\u212a1 ", "\\\u017f", "\\\u0131x",
+               "\\-", "\\_", "\\\\", "\\{", "{", "{\\b x", "a,b;", "\u00fc", "\u4e2d", "\U0001f600", "\t", "\n", "\u2003", "\\par\u0663\u2003z", "?", "\\'e9\\'e9"]
+
+
+def run_rtf_text(ctx, tb):
+    """get_value (info group) and _strip_rtf_simple against their models; property oracle on both."""
+    from sharepoint2text.parsing.extractors.ms_legacy import rtf_extractor as rx
+    rng = ctx.rng
+    encs = list(INFO_TOKENS) + ["".join(rng.choice(INFO_TOKENS) for _ in range(rng.randint(1, 6))) for _ in range(ctx.n(350, 4000))]
+    if ctx.tier == "thorough":
+        encs += ["\\u" + "1" * 4300 + "?", "\\u" + "1" * 4301 + "?"]
+    encs = [e for e in dict.fromkeys(encs) if "}" not in e]
+    terms = []
+    for enc in encs:
+        p = rx._RtfParser(b"")
+        try:
+            p._extract_metadata("{\\rtf1{\\info{\\title " + enc + "}}\\pard x}")
+            got = p.metadata.title
+            want = "(Some " + cstr(got) + ")"
+            if not utf8_ok(got) and utf8_ok(enc):
+                ctx.finding("rtf-info-lone-surrogate", f"info-group value {enc!r:.80} is reported with lone surrogates {got!r:.60}", {"enc": enc})
+        except ValueError:
+            want = "None"
+        ctx.case(("rtf-info-value", enc), "\\" in enc, kind="rtf:info-value")
+        terms.append(pair(cstr(enc), want))
+    corr(ctx, "rtf_info_value", "(info_case spaces decimals az_ci_table info_unicode (repair rtf_T))", terms, encs, "str * option str", shard=250)
+    toks = RTF_TOKENS + ["{\\pict abc}", "{\\PICT{\\x y}z}", "{\\object {a}{b}}", "{\\*\\unbalanced {", "{\\pictx}", "\\par\\tab", "\\par{", "\\par}", "\\par\t\n x",
+                         "\\pard ", "\\b-3 ", "\\b- ", "\\b-x", "\\fs24\u2003y", "\\\u212a1 ", "\\emdash-", "\\cell ", "\\row", "\\~x", "\\_ ", "\\-\\"]
+    ins = list(toks) + ["".join(rng.choice(toks) for _ in range(rng.randint(1, 8))) for _ in range(ctx.n(350, 4000))]
+    if ctx.tier == "thorough":
+        ins += ["x\\u" + "1" * 4301 + "?"]
+    ins = [x for x in dict.fromkeys(ins) if len(x.lower()) == len(x)]
+    terms = []
+    for x in ins:
+        p = rx._RtfParser(b"")
+        try:
+            got = p._strip_rtf_simple(x)
+            want = "(Some " + cstr(got) + ")"
+            if not utf8_ok(got) and utf8_ok(x):
+                ctx.finding("rtf-unicode-escape-lone-surrogate", f"_strip_rtf_simple turns well-formed {x!r:.80} into {got!r:.60} with lone surrogates",
+                            {"rtf_text": x, "call": "_RtfParser(b'')._strip_rtf_simple(text)"})
+        except ValueError:
+            want = "None"
+        except Exception as e:  # noqa
+            want = "None"
+            ctx.finding(f"rtf-strip-simple-raises:{type(e).__name__}", f"_strip_rtf_simple({x!r:.80}) raises {e!r:.120}", {"rtf_text": x})
+        ctx.case(("rtf-simple", x), "\\" in x, kind="rtf:strip-simple")
+        terms.append(pair(cstr(x), want))
+    corr(ctx, "rtf_strip_simple", "(simple_case spaces decimals az_ci_table rtf_T)", terms, ins, "str * option str", shard=250)
 
 
 # ------------------------------------------------------------------------------------------------ the accessor sweep
@@ -1350,7 +1412,7 @@ def run(ctx):
     ctx.extra["prove_s"] = round(_t.time() - _t0, 1)
     import time
     stage = {}
-    for fn in (run_odf, run_paths, run_rtf, run_meta, run_instances):
+    for fn in (run_odf, run_paths, run_rtf, run_rtf_text, run_meta, run_instances):
         t0 = time.time()
         fn(ctx, tb)
         stage[fn.__name__] = round(time.time() - t0, 1)
